@@ -163,6 +163,7 @@ class Director:
         self.on_cancel_point = None  # callable(plan) installed by the scenario
         self.points = 0
         self.keys_seen = []
+        self.cancel_applied = None  # callable: has the manager-wide cancelling call finished its cancel pass?
         self.send_gate = False
         self.key_stage = {}  # boundary key -> stage of the thread that reached it first (submission / request / io / None = a user thread)
         self.disabled = False
@@ -357,6 +358,10 @@ class GateController(threading.Thread):
             parked = self.d.parked_keys()
             if parked:
                 if self.gate.get('after_cancel_begin') and not self.d.cancel_began:
+                    time.sleep(0.0005)
+                    continue
+                if self.gate.get('after_cancel_applied') and not (self.d.cancel_applied is not None and self.d.cancel_applied()):
+                    # (not merely begun: the cancelling call has gone through its cancel pass and is now waiting for the transfers)
                     time.sleep(0.0005)
                     continue
                 if self.gate.get('hold_while_paused') and watchdog.PAUSED[0]:
